@@ -5,10 +5,12 @@ import itertools
 import struct as _struct
 
 from common import streamcase as sc
+from common import streamcase2 as sc2
 from easynetwork.protocol import StreamProtocol
 
 PROPERTY_ID = "C01"
 RUN_MODULE = "Run.C01"
+PARAMS_FROM = ["c06"]       # Run.C01 dispatches kinds 4-8 to Run.C06, which reads Gen/ParamsC06.v
 PROPS_FILE = "Props/C01.v"
 ALLOWED_AXIOMS = []
 ANCHORS = [
@@ -171,9 +173,59 @@ def ser_cases(tier, rng, escalate):
         yield dict(input=[10, 2, [size], data, [b"fixed"]], tags=["kind10", "ser-fixed"], nontrivial=len(data) == size)
 
 
+JSON_DOCS = [[1], {"a": "b"}, 'x"y', "\\", 12, None, True, [[]], {"k": [1, {"z": "}"}]}, "[", 1.5, "a]b", [], {}, "\\\""]
+
+
+def generic_cases(tier, rng, escalate):
+    """raw JSON (kind 4), file based (5/6) and zlib/bz2 compressors (7/8): streams of valid packets produced by the real
+    serializers, every chunking of short streams / cuts everywhere; model = Run/C06.v with library oracles tabulated by
+    calling the libraries"""
+    thorough = tier == "thorough" or escalate
+    reps = 12 if thorough else 3
+    import zlib
+    from common import excodes
+    zexp, bexp = excodes.caught_by([zlib.error]), excodes.caught_by([OSError])
+    confs = [(4, [200], [b"jsonraw"]), (5, [200, sc2.FB_EXPECTED], [b"fb", b"eager"]),
+             (6, [200, sc2.FB_EXPECTED, 7], [b"fb", b"eager"]),
+             (7, [zexp], [b"zlib", b"bytes"]), (8, [zexp, 16], [b"zlib", b"bytes"]),
+             (7, [bexp], [b"bz2", b"bytes"])]
+    for kind, cfg, impl in confs:
+        for _ in range(reps):
+            npk = rng.choice([1, 2, 2, 3])
+            if kind == 4:
+                pkts = [rng.choice(JSON_DOCS) for _ in range(npk)]
+            else:
+                pkts = [bytes(rng.choice(b"ab\x00\xff") for _ in range(rng.choice([1, 2, 4]))) for _ in range(npk)]
+            family, fcfg, hint = sc2.simple_family(kind, _fix_cfg(kind, cfg), impl)
+            ser = sc2.make_serializer(family, fcfg, impl)
+            proto = StreamProtocol(ser)
+            stream = b"".join(b"".join(proto.generate_chunks(p)) for p in pkts)
+            sent = [sc2.canon_packet(p) for p in pkts]
+            if len(stream) <= (9 if thorough else 7):
+                chunkings = list(sc.all_chunkings(stream))
+                tag = "all-chunkings"
+            else:
+                tag = "cuts"
+                chunkings = [[stream], [stream[i:i + 1] for i in range(len(stream))]]
+                cuts = list(range(1, len(stream)))
+                for c in (cuts if thorough or len(cuts) <= 24 else rng.sample(cuts, 24)):
+                    chunkings.append(sc.cuts_to_chunks(stream, [c]))
+                for _k in range(6 if thorough else 2):
+                    chunkings.append(sc.cuts_to_chunks(stream, [rng.randrange(1, len(stream)) for _ in range(rng.randrange(2, 5))]))
+            for chunks in chunkings:
+                case = sc2.make_simple_case(kind, _fix_cfg(kind, cfg), impl, chunks)
+                yield dict(input=case + [sent, 1], tags=[f"kind{kind}", impl[0].decode(), tag, f"npk{npk}", "valid"],
+                           nontrivial=bool(npk >= 2 and len(chunks) >= 2))
+
+
+def _fix_cfg(kind, cfg):
+    return cfg
+
+
 def cases(tier, rng, escalate):
     yield from ser_cases(tier, rng, escalate)
     yield from recv_cases(tier, rng, escalate)
+    yield from generic_cases(tier, rng, escalate)
 
 
 def recv_cases(tier, rng, escalate):
@@ -230,6 +282,8 @@ def _ser_setup(inp):
 
 
 def run_impl(inp):
+    if 4 <= inp[0] <= 8:
+        return sc2.run_impl(inp)
     if inp[0] != 10:
         return sc.run_impl(inp)
     ser, packet = _ser_setup(inp)
@@ -274,7 +328,7 @@ def oracle(inp):
     kind, cfg, _dec, chunks, impl, sent, valid = inp[:7]
     if not valid:
         return None
-    rounds = sc.run_impl(inp)
+    rounds = run_impl(inp)
     events = [e for r in rounds for e in r[1]]
     got = [e[1] for e in events if e[0] == 0]
     bad = [e for e in events if e[0] != 0]
@@ -282,7 +336,7 @@ def oracle(inp):
         return f"error reported on a stream of valid packets: {bad[0][:2]}"
     if got != list(sent):
         return f"received packets differ from sent: sent={sent!r} got={got!r}"
-    if kind in (0, 2, 11):      # copying consumer: get_buffer() is the unconsumed remainder
+    if kind in (0, 2, 11, 4, 5, 7):      # copying consumer: get_buffer() is the unconsumed remainder
         held = rounds[-1][2] if rounds else b""
         if held:
             return f"leftover after the last packet: {held!r}"
